@@ -10,7 +10,7 @@ FILES = ['mesonbuild/coredata.py', 'mesonbuild/cmdline.py', 'mesonbuild/build.py
 ENCODED = ['coredata.save (copy to .prev, write temp, flush, fsync, os.replace) / coredata.load', 'mesonlib.pickle_load (corrupt file -> MesonException)',
            'cmdline.write_cmd_line_file / update_cmd_line_file / read_cmd_line_file (configparser from the stdlib, real)', 'build.save',
            'environment.Environment.__init__ (load coredata; on a corrupt file regenerate from cmd_line.txt)',
-           'the order of the persistence calls of mconf.run_impl (update_cmd_line_file; Conf.save) and of msetup.MesonApp._generate (dump_coredata; backend temp+rename; build.save; '
+           'the rollback after a failed run (msetup.MesonApp._generate, except-branch: 3 lines mirrored in the harness around the real coredata.save / load)', 'the order of the persistence calls of mconf.run_impl (update_cmd_line_file; Conf.save) and of msetup.MesonApp._generate (dump_coredata; backend temp+rename; build.save; '
            'write/update_cmd_line_file) is mirrored in the harness, each call being the real function']
 EXPLANATION = ('The kill point is a symbolic integer: every mutating file-system primitive the real persistence functions issue (open-for-write = truncate, each write, flush, fsync, '
                'copyfile, os.replace, unlink) is one step of a modelled file system, and the command dies at the step the solver picks, with a symbolic number of bytes of the '
@@ -49,7 +49,7 @@ class Files(dict):
 class FS:
     """path -> Inode; content = str (text) | ('PICKLE', obj, complete[, 'truncated'])"""
     def __init__(self):
-        self.files = Files(); self.step = 0; self.kill_at = None; self.log = []
+        self.files = Files(); self.step = 0; self.kill_at = None; self.log = []; self.dirs = set()
 
     def tick(self, what):
         """one mutating step; -> True if the process dies DURING this step"""
@@ -124,15 +124,15 @@ def mk_open(fs):
 class PathProxy:
     def __init__(self, fs): self.fs = fs
     def __getattr__(self, n): return getattr(os.path, n)
-    def exists(self, p): return str(p) in self.fs.files or any(k.startswith(str(p) + '/') for k in self.fs.files)
+    def exists(self, p): return str(p) in self.fs.files or str(p) in self.fs.dirs or any(k.startswith(str(p) + '/') for k in self.fs.files)
     def isfile(self, p): return str(p) in self.fs.files
-    def isdir(self, p): return any(k.startswith(str(p) + '/') for k in self.fs.files)
+    def isdir(self, p): return str(p) in self.fs.dirs or any(k.startswith(str(p) + '/') for k in self.fs.files)
 
 
 class OsProxy:
     def __init__(self, fs): self.fs = fs; self.path = PathProxy(fs)
     def __getattr__(self, n): return getattr(os, n)
-    def makedirs(self, p, exist_ok=False, **k): return None
+    def makedirs(self, p, exist_ok=False, **k): self.fs.dirs.add(str(p)); return None
     def fsync(self, fd): self.fs.before('fsync')
     def replace(self, a, b):
         self.fs.before('rename %s -> %s' % (os.path.basename(a), os.path.basename(b)))
@@ -325,6 +325,9 @@ def ob_recover():
             elif cdstate == 3: fs.files[cd] = ('PICKLE', fs.files[cd].c[1], False, 'truncated')
             has_cmdline = choose(2, 'cmd_line.txt') == 0
             if not has_cmdline: del fs.files[priv('cmd_line.txt')]
+            # an interrupted `setup --wipe` removes the top-level entries one by one: meson-info / meson-logs may be gone while meson-private is still there
+            for dname in ('meson-info', 'meson-logs'):
+                if choose(2, dname + ' exists') == 0: fs.dirs.add(os.path.join(M.bld, dname))
             leftovers = choose(2, 'leftover temp files') == 1
             if leftovers:
                 fs.files[priv('coredata.dat~')] = ('PICKLE', None, False, 'truncated'); fs.files[priv('cmd_line.txt~')] = '[opt'
@@ -340,6 +343,8 @@ def ob_recover():
             except Exception:
                 check(False, 'no Python error escapes while loading the state'); return
             check(not (cdstate in (2, 3) and not has_cmdline), 'an unreadable coredata.dat without a recorded command line is reported')
+            pp = M.coredata.os.path
+            check(all(pp.isdir(dd) for dd in (env.scratch_dir, env.log_dir, env.info_dir)), 'the directory layout (meson-private, meson-logs, meson-info) is there again after the front end, whatever was missing')
             if cdstate == 0:
                 check(not env.first_invocation and env.coredata.optstore.get_value_for(M.WL) == '1', 'an intact coredata.dat is used as it is'); cover('loaded')
             else:
@@ -350,11 +355,40 @@ def ob_recover():
     return h
 
 
+def ob_failed_reconfigure():
+    """a configuration run that fails AFTER dump_coredata() puts the previous state back (msetup.MesonApp._generate, except-branch, mirrored below): whatever
+    the number of earlier successful saves, the persisted value is the one from before the failed command; a failed first setup leaves no coredata.dat"""
+    def h():
+        fs = FS()
+        with Patched(fs):
+            osp = M.coredata.os
+            vals = ['1', '2', '3']
+            n = choose(4, 'earlier_successful_saves')          # 0: this is the first setup
+            for i in range(n):
+                M.coredata.save(coredata_with(vals[i]), M.bld)
+            cdf = M.coredata.save(coredata_with('0'), M.bld)   # the failing command has already dumped its coredata ...
+            # ... when an exception arrives; msetup.py, _generate():   if cdf is not None: old_cdf = cdf + '.prev'
+            #                                                              if os.path.exists(old_cdf): os.replace(old_cdf, cdf)  else: os.unlink(cdf)
+            old_cdf = cdf + '.prev'
+            if osp.path.exists(old_cdf): osp.replace(old_cdf, cdf)
+            else: osp.unlink(cdf)
+            if n == 0:
+                check(not osp.path.exists(cdf), 'a failed first setup leaves no coredata.dat (the directory is not "configured")'); cover('first-setup'); return
+            try:
+                cd = M.coredata.load(M.bld)
+            except Exception:
+                check(False, 'the state put back after a failed run can be loaded'); return
+            check(cd.optstore.get_value_for(M.WL) == vals[n - 1], 'a failed reconfigure leaves the persisted value exactly as it was before that command')
+            cover('rolled-back')
+    return h
+
+
 def obligations(tier):
     out = []
     for c in ('configure', 'reconfigure', 'first-setup'):
         out.append(Obligation('kill[%s]' % c, ob_kill(c), dict(command=c, kill_step='symbolic 1..60 (every step of the command)', interrupted_write='every prefix'),
                               labels=('killed', 'completed', 'loaded') + (('regenerated',) if c == 'first-setup' else ()), optional_labels=('regenerated',), max_paths=200000, path_timeout=120))
+    out.append(Obligation('failed-reconfigure', ob_failed_reconfigure(), dict(earlier_successful_saves='0..3', rollback='the except-branch of MesonApp._generate, mirrored'), labels=('first-setup', 'rolled-back')))
     out.append(Obligation('recover', ob_recover(), dict(coredata_dat='intact | absent | empty | truncated', cmd_line_txt='present | absent', leftover_temp_files='both'),
                           labels=('loaded', 'regenerated', 'unrecoverable')))
     return out
